@@ -380,7 +380,24 @@ def r06_8(ctx):
     from .common import checked_conversions
     repo = ctx.repo
     # (_sym_to_num is documented to raise ValueError; its caller expr_value handles it)
-    checked_conversions(ctx, [f"{CORE}:Symbol.str_value", "kconfserver.core:get_ranges.<locals>.get_active_range"])
+    from .common import symbol_value_converters
+    mods = [CORE, "esp_kconfiglib.deprecated", "esp_kconfiglib.report", "kconfgen.core", "kconfserver.core", "esp_menuconfig.formatting",
+            "esp_menuconfig.app", "esp_menuconfig.model", "esp_idf_kconfig.gen_kconfig_doc"]
+    checked_conversions(ctx, symbol_value_converters(ctx.repo, mods), validated_params=("s",), only_symbol_values=True, exempt_funcs={
+        "_sym_to_num": "documented to raise ValueError for non-numbers; its only callers (the relation arms of expr_value) catch it and fall back "
+                       "to string comparison - checked below"})
+    # the exemption's premise: every call of _sym_to_num sits in a try that handles ValueError
+    from ..callgraph import CallGraph
+    cg = CallGraph(ctx.repo)
+    for caller, call in cg.callers(f"{CORE}:_sym_to_num", weak=False):
+        construct = f"{caller.short}/_sym_to_num(..) is called under a ValueError handler"
+        p = ctx.repo.parent(call)
+        ok = False
+        while p is not None and p is not caller.node:
+            if isinstance(p, ast.Try) and any(h.type is None or "ValueError" in ast.unparse(h.type) for h in p.handlers) and any(call is x for b in p.body for x in ast.walk(b)):
+                ok = True
+            p = ctx.repo.parent(p)
+        (ctx.ok(construct, caller.loc(call), nontrivial=False) if ok else ctx.bad(construct, "a non-numeric operand of a relation raises ValueError out of expr_value", caller.loc(call)))
     for q in (f"{CORE}:Symbol.str_value", "kconfserver.core:get_ranges.<locals>.get_active_range", "esp_menuconfig.formatting:check_valid"):
         f = repo.func(q)
         ctx.analysed(q)
